@@ -1,8 +1,12 @@
 package sched
 
 import (
+	"fmt"
+	"strings"
 	"time"
 )
+
+func joinEvents(ev []string) string { return strings.Join(ev, "; ") }
 
 // Exec is the result of one execution as seen by the explorer.
 type Exec struct {
@@ -40,7 +44,20 @@ type Explorer struct {
 	IsKnown func(class string) bool
 	// OnExec is called for every owned execution (after the oracle).
 	OnExec func(x *Exec)
+
+	// A child execution that cannot follow the prefix recorded by its parent (the menu at a
+	// replayed decision is shorter than the recorded alternative) is never a property
+	// violation: it is re-run (Retried), and a prefix that diverges on every attempt is given up
+	// (GaveUp; its subtree is not explored and the run is reported as not exhaustive).
+	Retried    int
+	GaveUp     int
+	DivergeLog []string // parent schedule / diverging child schedule, first few
+	// InjectDiverge > 0 declares every n-th execution diverged once (self-test of the re-run path).
+	InjectDiverge int
 }
+
+// divergeRetries is how often an execution whose prefix diverged is re-run.
+const divergeRetries = 3
 
 func (e *Explorer) Explore() {
 	if e.Outcomes == nil {
@@ -49,7 +66,33 @@ func (e *Explorer) Explore() {
 	if e.NShard <= 0 {
 		e.NShard = 1
 	}
-	e.explore(nil, 0, e.NShard == 1 || e.Shard == 0)
+	e.explore(nil, 0, e.NShard == 1 || e.Shard == 0, nil)
+}
+
+// followed checks that the child execution x took, at every decision of prefix, the same
+// decision out of the same menu as the execution par from which the prefix was derived (the last
+// decision of the prefix is the alternative being explored: same menu, other pick).
+func followed(x, par *Sched, prefix []int) string {
+	if x.Diverged != "" || par == nil {
+		return x.Diverged
+	}
+	if len(x.Trace) < len(prefix) {
+		return fmt.Sprintf("execution ended after %d decisions, prefix has %d", len(x.Trace), len(prefix))
+	}
+	for k := range prefix {
+		pm, xm := par.Menus[k], x.Menus[k]
+		same := len(pm) == len(xm)
+		for i := 0; same && i < len(pm); i++ {
+			same = pm[i] == xm[i]
+		}
+		if !same {
+			return fmt.Sprintf("step %d: menu %v, recorded menu %v", k, xm, pm)
+		}
+		if k < len(prefix)-1 && (x.Trace[k].Tid != par.Trace[k].Tid || x.Trace[k].Point != par.Trace[k].Point) {
+			return fmt.Sprintf("step %d: ran %d:%s, recorded %d:%s", k, x.Trace[k].Tid, x.Trace[k].Point, par.Trace[k].Tid, par.Trace[k].Point)
+		}
+	}
+	return ""
 }
 
 func (e *Explorer) stop() bool {
@@ -72,11 +115,28 @@ func (e *Explorer) stop() bool {
 
 // explore runs the execution that follows prefix and then default choices, and recurses into
 // every alternative at every later decision point that stays within the preemption bound.
-func (e *Explorer) explore(prefix []int, depth int, count bool) {
+func (e *Explorer) explore(prefix []int, depth int, count bool, par *Sched) {
 	if e.stop() {
 		return
 	}
 	x := e.Run(prefix)
+	x.S.Diverged = followed(x.S, par, prefix)
+	if e.InjectDiverge > 0 && par != nil && (e.Execs+e.DupExecs+1)%e.InjectDiverge == 0 && x.S.Diverged == "" {
+		x.S.Diverged = "injected (self-test of the re-run path)"
+	}
+	for try := 0; x.S.Diverged != "" && try < divergeRetries; try++ {
+		if len(e.DivergeLog) < 6 {
+			e.DivergeLog = append(e.DivergeLog, "diverged: "+x.S.Diverged+"\n  parent: "+par.TraceMenus()+"\n  child:  "+x.S.TraceMenus()+"\n  events: "+joinEvents(x.S.Events))
+		}
+		e.Retried++
+		x = e.Run(prefix)
+		x.S.Diverged = followed(x.S, par, prefix)
+	}
+	if x.S.Diverged != "" {
+		// not reproducible behaviour of the harness, not of the property: skip the subtree
+		e.GaveUp++
+		return
+	}
 	s := x.S
 	if count {
 		e.Execs++
@@ -124,15 +184,15 @@ func (e *Explorer) explore(prefix []int, depth int, count bool) {
 			cd := depth + 1
 			switch {
 			case e.NShard == 1 || cd > e.ShardDepth:
-				e.explore(child, cd, count)
+				e.explore(child, cd, count, s)
 			case cd == e.ShardDepth:
 				mine := e.counter%e.NShard == e.Shard
 				e.counter++
 				if mine {
-					e.explore(child, cd, true)
+					e.explore(child, cd, true, s)
 				}
 			default: // cd < ShardDepth: every shard walks it, shard 0 counts it
-				e.explore(child, cd, e.Shard == 0)
+				e.explore(child, cd, e.Shard == 0, s)
 			}
 		}
 	}
